@@ -59,3 +59,11 @@ add("C13", "exploration", ["dbh"], dbh("c13"),
     "Histories alternating committed queries with mutable transactions of 1-8 generated queries that are rolled back (closure error or "
     "failing query) and single queries failing after partial work; the order-insensitive dump after must equal the dump before.",
     HIST_NOTE, "DESIGN.md §6 C13")
+
+add("C19", "exploration", ["dbh"], dbh("c19"),
+    "logical step-budget monitor (storage-call counter in a StorageData wrapper) over tombstone-saturating histories",
+    "Insert/remove cycles over many distinct hashed keys (aliases, indexed values, property keys, index keys), rolled-back transactions "
+    "and generic hostile histories on DbImpl<MonStorage<..>>: no query may exceed 3,000,000 storage calls (observed maximum is reported; "
+    "it is three orders of magnitude below). Wall-clock is not part of the verdict.",
+    "A loop that makes no storage call would not be seen by the counter (the per-case wall-clock watchdog reports that as inconclusive).",
+    "DESIGN.md §6 C19, §5.4")
